@@ -105,7 +105,7 @@ def spec_for(c, dkey, kind, path, node, alias):
             want = table[k]
             if kind == "Compare" and k in ("Eq", "NotEq") and path.entails(U.is_kind("Null", right)):
                 want = "IS" if k == "Eq" else "IS NOT"
-            t = strip_paren(tree) if False else tree
+            t = tree
             if t[0] != "bin" or t[1] != want:
                 return False, f"root is {t[:2]}, expected operator {want}"
             if not (is_hole_of(t[2], left) and is_hole_of(t[3], right)):
